@@ -780,7 +780,12 @@ def operator_call(eng, n, st):
         else:
             (s, dv), = eng.ev(args_n[1], s)
             d = as_int(dv)
-        if isinstance(old, Iter):
+        if isinstance(old, PySeqIter) and op == 'operator++':
+            eng.may_call_python(s, '__next__ of a Python iterator', line)
+            s_exc = s.clone()
+            eng.throw(s_exc, 'pybind11::error_already_set', line, 'from __next__')
+            new = PySeqIter(old.ref, old.pos + 1)
+        elif isinstance(old, Iter):
             new = replace(old, pos=old.pos + d if op in ('operator+=', 'operator++') else old.pos - d)
         elif isinstance(old, Opaque):
             new = old
